@@ -31,7 +31,21 @@ CLAIMS = {
   ref="DESIGN.md section 5 C37"),
 }
 
+NOT_BUILT = "contracts for this property are designed in DESIGN.md section 5 but were not written and discharged in the time available; nothing is claimed (not applicable as built, not a statement about the technique)"
 NA = {
+ "C09": "technique cannot express it: selector resolution, method sets and type switches are decided against go/types' own LookupFieldOrMethod and run-time reflect.Type identity of synthesised types; a contract would have to re-specify Go's selector rules over an abstract type graph, i.e. a model, not the code (DESIGN.md section 5 C09)",
+ "C10": "schedules are outside sequential weakest-precondition reasoning; channels/select are outside the verified Go subset; data-race freedom needs a memory-model proof (DESIGN.md section 5 C10)",
+ "C11": "behaviour is that of reflect.MakeFunc / reflect-synthesised proxies plus whole-program equivalence with compiled Go; no function-level contract short of specifying package reflect (DESIGN.md section 5 C11)",
+ "C16": "value equivalence with compiled Go for arbitrary declaration sets is a whole-program statement whose oracle is Go's initialisation order; the mechanism (the sorter) is property C17 (DESIGN.md section 5 C16)",
+ "C18": "configurations x programs: the option bits select whole code paths whose equivalence is the whole-program statement itself; no contract narrower than 'both paths denote the same program' exists (DESIGN.md section 5 C18)",
+ "C21": "the trees are built by compiled closures that run interpreted code; the oracle is a substitution model over all Go syntax trees and a cross-check between two interpreters: needs an algebraic datatype of Go syntax and inductive proofs, gives no replayable counterexample (DESIGN.md section 5 C21)",
+ "C23": "states equality with an independent implementation (go/scanner) on all inputs; the fork differs structurally from it, so no relational VC can align the two, and a contract would be the Go lexical grammar in full (DESIGN.md section 5 C23-C25)",
+ "C24": "states equality with an independent implementation (go/parser) on all inputs; a contract would be the Go syntactic grammar in full (DESIGN.md section 5 C23-C25)",
+ "C25": "parse(print(t)) == t over all syntax trees needs both the printer and the parser specified against the grammar; out of reach of function-level contracts (DESIGN.md section 5 C23-C25)",
+ "C29": "compares interpreter types with the answers of reflect and go/types (size, alignment, method sets, assignability): the oracle is two large libraries that would have to be specified (DESIGN.md section 5 C29, C30)",
+ "C30": "graph-to-graph converter over the whole go/types object model with 'printed form matches' as oracle (DESIGN.md section 5 C29, C30)",
+ "C35": "'behaves like textual specialisation' is whole-program; memoisation keys are canonical type pointers whose canonicity is C29 (DESIGN.md section 5 C35)",
+ "C39": "the oracle is the Go toolchain compiling and running the written file (DESIGN.md section 5 C39)",
 }
 
 def main():
@@ -56,7 +70,7 @@ def main():
                 "technique": TECH,
             })
         else:
-            na.append({"property_id": i, "reason": NA.get(i, "not built yet in this round (design in DESIGN.md section 5); no check is claimed")})
+            na.append({"property_id": i, "reason": NA.get(i, NOT_BUILT)})
     m = {
         "version": 1,
         "setup_cmd": "cd /verif/gowp && GOFLAGS=-mod=vendor GOPROXY=off GOSUMDB=off GOTOOLCHAIN=local go build -o /verif/bin/gowp ./cmd/gowp",
